@@ -128,6 +128,7 @@ type methodPath struct {
 
 // runMethod interprets method fd on (a deep copy of) obj. The scalar parameters keep their source names.
 var c14IntSyms map[string]bool
+var c14Paths int
 
 func runMethod(p *packages.Package, d *declIndex, fd *ast.FuncDecl, obj *vn.StructVal) ([]methodPath, *vn.Undecided) {
 	var res []methodPath
@@ -139,6 +140,7 @@ func runMethod(p *packages.Package, d *declIndex, fd *ast.FuncDecl, obj *vn.Stru
 	if u != nil {
 		return nil, u
 	}
+	c14Paths += len(paths)
 	for _, pa := range paths {
 		mp := methodPath{conds: pa.CondString(), condvs: pa.Conds, ret: pa.Ret, panics: pa.Panic, recv: pa.RecvObj}
 		for _, pv := range pa.Params {
@@ -424,6 +426,9 @@ func checkC14(c *core.Ctx) error {
 	for _, e := range scalarDistTable {
 		checkDistEntry(c, p, d, e)
 	}
+	c.Analysed["families_with_reference_formula"] = len(scalarDistTable)
+	c.Analysed["families_excluded_with_reason"] = len(scalarDistExcluded)
+	c.Analysed["interpreted_paths"] = c14Paths
 	checkWrappers(c, p, d)
 	checkIid(c, p, d)
 	return nil
